@@ -105,6 +105,7 @@ def apply(eng, rule: Rule, fr, topology, enter, leave, root):
     eng.assumptions.add("derived rule: traverse client rule (consequence of the proved contract of _traverse_dfs, argued in DESIGN.md)")
     ctx = Ctx(P, n, rz, Sub, nkids, kid, rank)
     eng.ghost["last-traverse-Sub"] = Sub  # so that the caller's postconditions can speak about the subtree of this call
+    eng.ghost["last-traverse-ctx"] = ctx  # ... and about the children enumeration (nkids / kid / rank) of this call
 
     def vars_now():
         eng.cur_frame = fr
